@@ -619,6 +619,39 @@ def reshape_conditionals(fn, r, stats, key):
             i += 1
         return out
     fn.body = blk(fn.body)
+    # at the very end of the function, `if not c: X` (then fall off the end) == `if c: return` / X
+    last = fn.body[-1] if fn.body else None
+    if isinstance(last, ast.If) and not last.orelse and surplus(last) and not terminates(last.body):
+        from .au import negate
+        guard = ast.copy_location(ast.If(test=ast.fix_missing_locations(ast.copy_location(negate(copy.deepcopy(last.test)), last.test)),
+                                         body=[ast.copy_location(ast.Return(value=None), last)], orelse=[]), last)
+        if wanted(guard):
+            swap([last], [guard])
+            fn.body[-1:] = [guard] + last.body
+            changed[0] += 1
+    # `return all(e for t in it)` == for t in it: if not e: return False / return True   (any: if e: return True / return False)
+    for holder in [n for n in ast.walk(fn) if isinstance(getattr(n, 'body', None), list)]:
+        b = holder.body
+        if b and isinstance(b[-1], ast.Return) and isinstance(b[-1].value, ast.Call) and isinstance(b[-1].value.func, ast.Name) and b[-1].value.func.id in ('all', 'any') \
+                and len(b[-1].value.args) == 1 and isinstance(b[-1].value.args[0], (ast.GeneratorExp, ast.ListComp)) and len(b[-1].value.args[0].generators) == 1:
+            from .au import negate
+            r_ = b[-1]
+            g = r_.value.args[0]
+            gen = g.generators[0]
+            isall = r_.value.func.id == 'all'
+            test = negate(copy.deepcopy(g.elt)) if isall else g.elt
+            inner = ast.If(test=test, body=[ast.Return(value=ast.Constant(value=not isall))], orelse=[])
+            for c_ in reversed(gen.ifs):
+                inner = ast.If(test=c_, body=[inner], orelse=[])
+            loop = ast.For(target=gen.target, iter=gen.iter, body=[inner], orelse=[])
+            for n_ in ast.walk(loop):
+                ast.copy_location(n_, r_) if not hasattr(n_, 'lineno') else None
+            ast.fix_missing_locations(ast.copy_location(loop, r_))
+            fin = ast.copy_location(ast.Return(value=ast.copy_location(ast.Constant(value=isall), r_)), r_)
+            if surplus(r_) and wanted(loop):
+                swap([r_], [loop, inner, fin])
+                b[-1:] = [loop, fin]
+                changed[0] += 1
     if changed[0] and stats is not None:
         stats.append((key, 'conditional spelling x%d' % changed[0]))
 
@@ -718,7 +751,29 @@ def _settle(fn, r, stats, key):
     return ok
 
 
+def defs_to_lambdas(fn, r):
+    """a NEW local `def f(a): return e` is `f = lambda a: e` (the inverse of "lambda -> local def")"""
+    ref_names = set(n.split('\x01')[0] for o in r['names'] for n in o)
+    k = 0
+    for n in ast.walk(fn):
+        for f in ('body', 'orelse', 'finalbody'):
+            block = getattr(n, f, None)
+            if not isinstance(block, list):
+                continue
+            for j, s in enumerate(block):
+                if isinstance(s, ast.FunctionDef) and s is not fn and s.name not in ref_names and not s.decorator_list and not s.returns:
+                    b = _body_of(s)
+                    if len(b) == 1 and isinstance(b[0], ast.Return) and b[0].value is not None and not any(isinstance(m, (ast.Yield, ast.YieldFrom, ast.Await)) for m in ast.walk(s)):
+                        for a in s.args.args + s.args.kwonlyargs:
+                            a.annotation = None
+                        lam = ast.copy_location(ast.Lambda(args=s.args, body=b[0].value), s)
+                        block[j] = ast.fix_missing_locations(ast.copy_location(ast.Assign(targets=[ast.copy_location(ast.Name(id=s.name, ctx=ast.Store()), s)], value=lam), s))
+                        k += 1
+    return k
+
+
 def inline_new_temps(fn, r, stats, key):
+    defs_to_lambdas(fn, r)
     """A local name that the reference does not have, assigned once from a side-effect-free expression whose operands are not reassigned
     afterwards, is a name for that expression: substitute it back (the inverse of "introduce explaining variable")."""
     ref_names = set(n for o in r['names'] for n in o)
